@@ -45,7 +45,8 @@ func checkGeometry(c Case) error {
 	var z render.Renderer
 	if c.PrevRect[2] > 0 && c.PrevRect[3] > 0 {
 		// an earlier use of the same Renderer with another target
-		z.SetRasterizer(&rast.Recorder{NoLattice: true}, image.Rect(c.PrevRect[0], c.PrevRect[1], c.PrevRect[0]+c.PrevRect[2], c.PrevRect[1]+c.PrevRect[3]))
+		// ... on the same rasteriser (tiles of one sheet), whose Bounds() then report the earlier size
+		z.SetRasterizer(rr, image.Rect(c.PrevRect[0], c.PrevRect[1], c.PrevRect[0]+c.PrevRect[2], c.PrevRect[1]+c.PrevRect[3]))
 		pvb := vb
 		if c.PrevViewBox[2] > c.PrevViewBox[0] && c.PrevViewBox[3] > c.PrevViewBox[1] {
 			pvb = [4]float32{float32(c.PrevViewBox[0]), float32(c.PrevViewBox[1]), float32(c.PrevViewBox[2]), float32(c.PrevViewBox[3])}
@@ -56,9 +57,11 @@ func checkGeometry(c Case) error {
 		z.AbsQuadTo(4, 5, 6, 7)
 		z.ClosePathEndPath()
 	}
+	mark := len(rr.Calls)
 	z.SetRasterizer(rr, rect)
 	z.Reset(gen.VB(vb), ivg.DefaultPalette)
 	ops.ApplyAll(&z, c.Ops)
+	rr.Calls = rr.Calls[mark:]
 
 	// reference
 	type want struct {
